@@ -5,7 +5,7 @@
 # (3) every hand-made mutant under canaries/<name>.diff (+ .json naming the property it breaks).
 # A fix-revert that removes a function under contract leaves the contract uninterpretable (UNDECIDED, no alarm by
 # design); those are reported as "undecidable" and do not fail the self-test - a canary covers the same defect.
-# Usage: ./selftest.sh [fixes|seeds|canaries|all] [name-filter for canaries]   Exit 0 iff every canary is detected (seeds known to be out of reach excepted).
+# Usage: ./selftest.sh [fixes|seeds|canaries|benign|all] [name-filter for canaries]   Exit 0 iff every canary is detected (seeds known to be out of reach excepted).
 cd "$(dirname "$0")"
 export GOFLAGS=-mod=mod GOPROXY=off
 mode=${1:-all}; only=${2:-}; rc=0
@@ -49,6 +49,19 @@ if [ "$mode" = canaries ] || [ "$mode" = all ]; then
     nv=$(echo "$out" | grep -c "^VIOLATION property=$prop")
     first=$(echo "$out" | grep "^VIOLATION" | head -1 | sed 's/.*obligation=//' | cut -c1-150)
     if [ "$nv" -gt 0 ]; then echo "canary $n: detected ($nv) $first"; else echo "canary $n: NOT DETECTED"; rc=1; fi
+  done
+fi
+if [ "$mode" = benign ] || [ "$mode" = all ]; then
+  # must-pass corpus: behaviour-preserving edits of functions under contract (renames, hoisted locals, reordered
+  # independent statements, equivalent rewrites); the property's quick check must stay quiet
+  for d in benign/*${only}*.diff; do
+    n=$(basename $d .diff); prop=$(python3 -c "import json;print(json.load(open('benign/$n.json'))['property'])")
+    if ! git -C /repo apply "$PWD/$d" 2>/dev/null; then echo "benign $n: patch does not apply"; rc=1; git -C /repo checkout -- .; continue; fi
+    out=$(./check.sh $prop quick 2>&1); ec=$?
+    git -C /repo checkout -- .
+    nv=$(echo "$out" | grep -c "^VIOLATION")
+    und=$(echo "$out" | grep -c "^UNDECIDED: contract")
+    if [ "$nv" -eq 0 ] && [ "$ec" -eq 0 ]; then echo "benign $n: quiet (exit 0, $und contract clauses undecided)"; else echo "benign $n: FALSE ALARM ($nv) $(echo "$out" | grep "^VIOLATION" | head -1 | sed 's/.*obligation=//' | cut -c1-150)"; rc=1; fi
   done
 fi
 if [ "$mode" = seeds ] || [ "$mode" = all ]; then
